@@ -15,6 +15,8 @@
 (***************************************************************************)
 EXTENDS Integers, Sequences, FiniteSets, TLC, BigNat, BigDigits
 
+CONSTANT Wide      \* TRUE: the larger set of duration points and retry limits (thorough tier)
+
 \* std::time::Duration::MAX = u64::MAX s + 999 999 999 ns = 2^64 * 10^9 - 1 ns
 DurMax  == DPred(DMul(DShift(DShift(DPow2(64))), 10))
 Zero    == <<>>
@@ -32,13 +34,19 @@ ASSUME /\ DAdd(DDbl(HalfMax), Ns1) = DurMax
        /\ \A p \in {DurMax, HalfMax, HalfMax1, DurMaxM1, Ms500, S30, Ns1, Zero} : DWellFormed(p)
        /\ DLt(HalfMax, HalfMax1) /\ DLt(HalfMax1, DurMaxM1) /\ DLt(DurMaxM1, DurMax) /\ DLt(S30, HalfMax)
 
+Us1     == <<1000>>
+S1      == <<0, 0, 10>>
+Quarter == DHalf(HalfMax)
+HalfMaxM1 == DPred(HalfMax)
 Points == {Zero, Ns1, Ms500, S30, HalfMax, HalfMax1, DurMaxM1, DurMax}
+          \cup (IF Wide THEN {Us1, S1, Quarter, HalfMaxM1} ELSE {})
 
 NoLimit == [k |-> "none", v |-> Big(0)]
 Lim(n) == [k |-> "some", v |-> n]
 U32Max == BigU32Max
 U32MaxM2 == <<65535, 65533>>
 Limits == {NoLimit, Lim(Big(0)), Lim(Big(1)), Lim(Big(2)), Lim(Big(3)), Lim(Big(10)), Lim(Big(70)), Lim(U32Max)}
+          \cup (IF Wide THEN {Lim(Big(5)), Lim(Big(69)), Lim(Big(71)), Lim(<<65535, 65534>>)} ELSE {})
 
 \* the delay a back-off has reached after very many delays: the maximum (0 stays 0)
 Settled(init, max) == IF init = Zero THEN Zero ELSE max
